@@ -201,10 +201,23 @@ impl PoolEntry {
 		MethodDescriptor::try_from(pool.get_utf8(descriptor_index).context("while getting method type")?)
 	}
 
-	fn as_dynamic(&self, pool: &PoolRead, bootstrap_methods: &Option<Vec<BootstrapMethodRead>>) -> Result<ConstantDynamic> {
+	fn as_dynamic(&self, pool: &PoolRead, bootstrap_methods: &Option<Vec<BootstrapMethodRead>>, depth: usize) -> Result<ConstantDynamic> {
 		let PoolEntry::Dynamic { bootstrap_method_attribute_index, name_and_type_index } = *self else {
 			bail!("pool entry not `Dynamic`: {self:?}");
 		};
+
+		// A `Dynamic` entry may (indirectly) list itself as one of its own bootstrap arguments, and arguments shared
+		// between bootstrap methods get copied once per use. Without these limits, the former recurses without bound
+		// and the latter takes time and memory exponential in the size of the class file.
+		if depth > MAX_DYNAMIC_NESTING {
+			bail!("`Dynamic` pool entries nested more than {MAX_DYNAMIC_NESTING} levels deep in bootstrap arguments (is there a cycle?)");
+		}
+		if depth > 0 {
+			let Some(left) = pool.nested_dynamic_left.get().checked_sub(1) else {
+				bail!("too many `Dynamic` pool entries used as bootstrap arguments of other `Dynamic` pool entries");
+			};
+			pool.nested_dynamic_left.set(left);
+		}
 
 		let FieldNameAndDesc { name, desc: descriptor } = pool.get_field_name_and_type(name_and_type_index)?;
 
@@ -218,7 +231,7 @@ impl PoolEntry {
 		let arguments = {
 			let mut vec = Vec::with_capacity(method.arguments.len());
 			for &argument in &method.arguments {
-				let value = pool.get_loadable(argument, bootstrap_methods)
+				let value = pool.get_loadable_nested(argument, bootstrap_methods, depth + 1)
 					.with_context(|| anyhow!("while argument for `Dynamic` at index {bootstrap_method_attribute_index:?}: {name:?} {descriptor:?} {handle:?}"))?;
 				vec.push(value); // TODO: recursion
 			}
@@ -245,7 +258,7 @@ impl PoolEntry {
 		let arguments = {
 			let mut vec = Vec::with_capacity(method.arguments.len());
 			for &argument in &method.arguments {
-				let value = pool.get_loadable(argument, bootstrap_methods)
+				let value = pool.get_loadable_nested(argument, bootstrap_methods, 1)
 					.with_context(|| anyhow!("while argument for `InvokeDynamic` at index {bootstrap_method_attribute_index:?}: {name:?} {descriptor:?} {handle:?}"))?;
 				vec.push(value); // TODO: recursion
 			}
@@ -255,7 +268,7 @@ impl PoolEntry {
 		Ok(InvokeDynamic { name, descriptor, handle, arguments })
 	}
 
-	fn as_loadable(&self, pool: &PoolRead, bootstrap_methods: &Option<Vec<BootstrapMethodRead>>) -> Result<Loadable> {
+	fn as_loadable(&self, pool: &PoolRead, bootstrap_methods: &Option<Vec<BootstrapMethodRead>>, depth: usize) -> Result<Loadable> {
 		match self {
 			PoolEntry::Integer { .. } => Ok(Loadable::Integer(self.as_integer()?)),
 			PoolEntry::Float { .. } => Ok(Loadable::Float(self.as_float()?)),
@@ -265,7 +278,7 @@ impl PoolEntry {
 			PoolEntry::String { .. } => Ok(Loadable::String(self.as_string(pool)?)),
 			PoolEntry::MethodHandle { .. } => Ok(Loadable::MethodHandle(self.as_method_handle(pool)?)),
 			PoolEntry::MethodType { .. } => Ok(Loadable::MethodType(self.as_method_type(pool)?)),
-			PoolEntry::Dynamic { .. } => Ok(Loadable::Dynamic(self.as_dynamic(pool, bootstrap_methods)?)),
+			PoolEntry::Dynamic { .. } => Ok(Loadable::Dynamic(self.as_dynamic(pool, bootstrap_methods, depth)?)),
 			_ => bail!("pool entry is not loadable: {self:?}"),
 		}
 	}
@@ -282,9 +295,16 @@ impl PoolEntry {
 	}
 }
 
+/// How deep [`PoolEntry::Dynamic`] entries may be nested inside the bootstrap arguments of other such entries.
+const MAX_DYNAMIC_NESTING: usize = 16;
+/// How many [`PoolEntry::Dynamic`] entries may be resolved as bootstrap arguments of other such entries, per class file.
+const MAX_NESTED_DYNAMIC: usize = 1 << 16;
+
 pub(crate) struct PoolRead {
 	/// We store a [`None`] for the zero index, as well as for the upper indices of [`PoolEntry::Double`] and [`PoolEntry::Long`].
 	inner: Vec<Option<PoolEntry>>,
+	/// See [`MAX_NESTED_DYNAMIC`].
+	nested_dynamic_left: std::cell::Cell<usize>,
 }
 
 impl PoolRead {
@@ -395,7 +415,7 @@ impl PoolRead {
 			};
 		}
 
-		Ok(PoolRead { inner: pool })
+		Ok(PoolRead { inner: pool, nested_dynamic_left: std::cell::Cell::new(MAX_NESTED_DYNAMIC) })
 	}
 
 	fn get(&self, index: u16) -> Result<&PoolEntry> {
@@ -507,7 +527,12 @@ impl PoolRead {
 	///
 	/// These are collected in the [`Loadable`] type.
 	pub(crate) fn get_loadable(&self, index: u16, bootstrap_methods: &Option<Vec<BootstrapMethodRead>>) -> Result<Loadable> {
-		self.get(index)?.as_loadable(self, bootstrap_methods).pool_context(index)
+		self.get_loadable_nested(index, bootstrap_methods, 0)
+	}
+
+	/// Like [`PoolRead::get_loadable`], for an entry used as a bootstrap argument `depth` levels below an instruction.
+	fn get_loadable_nested(&self, index: u16, bootstrap_methods: &Option<Vec<BootstrapMethodRead>>, depth: usize) -> Result<Loadable> {
+		self.get(index)?.as_loadable(self, bootstrap_methods, depth).pool_context(index)
 	}
 
 	pub(crate) fn get_constant_value(&self, index: u16) -> Result<ConstantValue> {
